@@ -1090,6 +1090,20 @@ func obj(c px.Context, t *gty, ve sx.Sexp) core.Result {
 	return res(out, pred)
 }
 
+// flatStruct: the part of @obj that the Lean model covers — at least one field, field types struct-free and
+// reflectable, no field that is itself an interface{} (it wraps to a Runtime value)
+func flatStruct(t *gty) bool {
+	if t.kind != "struct" || len(t.fields) == 0 {
+		return false
+	}
+	for _, f := range t.fields {
+		if f.t.has("struct") || f.t.kind == "iface" || notReflectable(f.t) != "" {
+			return false
+		}
+	}
+	return true
+}
+
 func pos0(vs []px.Value) px.Value {
 	if len(vs) == 0 {
 		return px.Undef
@@ -1342,7 +1356,11 @@ func gen(g *core.G) {
 			// structs are not modelled yet: implementation-only test ops
 			g.Emit("@refl " + t.sexp().String() + " " + v)
 			if t.kind == "struct" {
-				g.Emit("@obj " + t.sexp().String() + " " + v)
+				if flatStruct(t) {
+					g.Emit("obj " + t.sexp().String() + " " + v) // modelled
+				} else {
+					g.Emit("@obj " + t.sexp().String() + " " + v)
+				}
 			}
 			if nraw++; nraw%10 == 0 {
 				g.Emit("@reflraw " + t.sexp().String() + " " + v)
